@@ -398,7 +398,11 @@ def run(res, tier, seed, shard, nshards):
             nested_rerun_case(res, W, arg)
             continue
         if kind == "plain":
+            # run once as written and once under drawn ambient conditions (TLS transport, late callback assignment, trace logging)
             run_scenario(res, W, sc, sched.NonPreemptive(), "plain", dispatcher_kind=arg)
+            if sc.get("callbacks") is None and not sc.get("url"):
+                with H.ambient((seed, ji, "C14"), res, dims=("app",)):
+                    run_scenario(res, W, sc, sched.NonPreemptive(), "plain-ambient", dispatcher_kind=arg)
             res.count("scenario_runs")
             res.sample({"scenario": sc["name"], "dispatcher": arg or "builtin", "ending": sc["ending"]}, cap=4)
         elif kind == "sweep2":
